@@ -435,8 +435,14 @@ fn report_case(out: &mut Out, m: &NG, strat: &'static str, cfg: &Cfg, script: &[
     match canon(&r.joined, &fps) {
         Err(e) => out.v("join_and_report-text-malformed", &format!("{} {}", e, desc)),
         Ok(j) => {
-            let k = j.iter().take_while(|l| l.starts_with("Checking.")).count();
-            match checking_lines_ok(&j[..k]) {
+            // The polling thread of join_and_report runs concurrently with the final report: a `Checking.` line it had
+            // already decided to print may come out AFTER `Done.` (or between `Done.` and the discovery summary; never inside
+            // a discovery block: the reporter is locked for the whole summary). So the `Checking.` lines are validated on
+            // their own, wherever they stand, and the rest must be exactly the text of join + report.
+            let checking: Vec<String> = j.iter().filter(|l| l.starts_with("Checking.")).cloned().collect();
+            let j: Vec<String> = j.iter().filter(|l| !l.starts_with("Checking.")).cloned().collect();
+            let k = 0usize;
+            match checking_lines_ok(&checking[..]) {
                 Ok(n) => { if n > 0 { out.stat("join_and_report-with-checking-lines"); out.stat_n("checking-lines", n as u64); } }
                 Err(e) => out.v("checking-line", &format!("{} {}", e, desc)),
             }
